@@ -195,29 +195,20 @@ theorem shadow_then_resolve (B : Builtins) (ch ch1 : Chain) (n : Name) (s : Symb
       unfold defineLocal at h
       cases hg : mapGet st.store n with
       | some sym =>
-        simp only [hg, Res.ok.injEq, Prod.mk.injEq] at h
-        obtain ⟨h1, h2, _⟩ := h
-        subst h1 h2
-        exact resolve_hit B _ _ _ _ hg
+        simp only [hg] at h
+        split at h
+        · obtain ⟨_, _, st2, ps2, hc, hm⟩ := defineNewLocal_spec B st ps n ch1 s e h
+          subst hc
+          exact resolve_hit B _ _ _ _ hm
+        · simp only [Res.ok.injEq, Prod.mk.injEq] at h
+          obtain ⟨h1, h2, _⟩ := h
+          subst h1 h2
+          exact resolve_hit B _ _ _ _ hg
       | none =>
         simp only [hg] at h
-        cases hi : nextIndex (st :: ps) with
-        | panic m => simp [hi, bind, Res.bind] at h
-        | err e => simp [hi, bind, Res.bind] at h
-        | ok idx =>
-          simp only [hi, bind, Res.bind] at h
-          cases hu : updateMaxDefs { st with numDefinition := st.numDefinition + 1, store := mapSet st.store n { name := n, index := idx, scope := .local } } ps (idx + 1) with
-          | panic m => simp [hu] at h
-          | err e => simp [hu] at h
-          | ok v =>
-            obtain ⟨st2, ps2⟩ := v
-            simp only [hu, pure, Res.ok.injEq, Prod.mk.injEq] at h
-            obtain ⟨h1, h2, _⟩ := h
-            subst h1 h2
-            obtain ⟨a, _, _⟩ := updateMaxDefs_rel B ps _ _ _ _ hu
-            have : mapGet (shadowBuiltin B st2 n).store n = some { name := n, index := idx, scope := .local } := by
-              rw [(shadowBuiltin_store B st2 n).1, a]; simp [mapGet_mapSet]
-            exact resolve_hit B _ _ _ _ this
+        obtain ⟨_, _, st2, ps2, hc, hm⟩ := defineNewLocal_spec B st ps n ch1 s e h
+        subst hc
+        exact resolve_hit B _ _ _ _ hm
   exact ⟨hres, resolve_disabled_chain B ch1 ch1 n s (hrel.ok hok) (hrel.rootDisabled n hd) hres⟩
 
 example : ∃ ch1 s e, defineLocal builtinsMap [{ newTab with disabledBuiltins := some [nLen] }] nLen = .ok (ch1, s, e) ∧
